@@ -104,7 +104,30 @@ func (x *Exec) call(st *State, v *ssa.Call) bool {
 	if ok && fv.Fn != nil {
 		return x.callFunc(st, v, fv.Fn, args, fv.Bindings, cn)
 	}
-	// call through an unknown function value: contract attached by "fnspec"? not supported: havoc
+	// call through a function-typed parameter with a contract attached by "fnspec"
+	if p, isParam := c.Value.(*ssa.Parameter); isParam && fr.contract != nil {
+		if key := fr.contract.FnSpecs[p.Name()]; key != "" {
+			ct := x.db.Funcs[strings.TrimPrefix(key, "std:")]
+			if ct == nil {
+				specFail("fnspec %s: unknown contract %s", p.Name(), key)
+			}
+			sig := p.Type().Underlying().(*types.Signature)
+			var names []string
+			pn := strings.Fields(strings.ReplaceAll(ct.ParamNames, ",", " "))
+			for i := 0; i < sig.Params().Len(); i++ {
+				n := sig.Params().At(i).Name()
+				if i < len(pn) {
+					n = pn[i]
+				}
+				names = append(names, n)
+			}
+			if ok {
+				x.check(st, "nil", "call "+cn.name, v, b.Ne(x.funcID(fv), b.Int(0)), "call of nil function value")
+			}
+			x.applyContract(st, ct, sig, names, args, v, cn)
+			return !st.dead
+		}
+	}
 	if ok {
 		x.check(st, "nil", "call "+cn.name, v, b.Ne(x.funcID(fv), b.Int(0)), "call of nil function value")
 	}
@@ -896,6 +919,9 @@ func (x *Exec) userAsserts(st *State, fr *Frame, cn callName, after bool) {
 			if lm.Induct != "" {
 				inst = x.b.Implies(x.b.Le(x.b.Int(0), vals[lm.Induct]), inst)
 			}
+			// rewrite with the integer equations already established on this path, so that the
+			// instance's hypotheses coincide syntactically with asserted facts
+			st.assume(x.rewriteWithEqs(st, inst))
 			st.assume(inst)
 			x.usedLemmas[a.Lemma] = true
 			continue
@@ -930,4 +956,42 @@ func (x *Exec) havocHeapKind(st *State, h string) {
 	for _, n := range names {
 		st.setHeap(n, x.b.Fresh(n+"@asm", x.heapSorts[n]), nil)
 	}
+}
+
+func termSize(t *Term, seen map[*Term]bool) int {
+	if seen[t] {
+		return 0
+	}
+	seen[t] = true
+	n := 1
+	for _, a := range t.Args {
+		n += termSize(a, seen)
+	}
+	return n
+}
+
+func (x *Exec) rewriteWithEqs(st *State, t *Term) *Term {
+	m := map[*Term]*Term{}
+	for _, f := range st.pc {
+		if f.Op != "=" || f.Args[0].Sort != SInt || f.Args[0].bound || f.Args[1].bound {
+			continue
+		}
+		l, r := f.Args[0], f.Args[1]
+		sl, sr := termSize(l, map[*Term]bool{}), termSize(r, map[*Term]bool{})
+		if sl < sr {
+			l, r = r, l
+			sl, sr = sr, sl
+		}
+		// replace the larger side l by r; only compound, non-literal l
+		if sl <= 1 || l.IsLit() || sl == sr {
+			continue
+		}
+		if _, dup := m[l]; !dup {
+			m[l] = r
+		}
+	}
+	if len(m) == 0 {
+		return t
+	}
+	return x.b.Subst(t, m)
 }
